@@ -203,7 +203,8 @@ pub fn run(case: &Value, ctx: &Ctx) -> Outcome {
             sfile = Some(p);
         }
     }
-    let precision = [0usize, 1, 6, 12][(id / 7 % 4) as usize];
+    // beyond 17 decimals the digits are those of the double's exact expansion; they must still be printed
+    let precision = [0usize, 1, 6, 12, 18, 25][(id / 7 % 6) as usize];
     if !proj.is_empty() {
         if proj.iter().all(|t| t % 2 == 1) && id % 5 < 2 {
             args.push("--project-individuals".into());
@@ -214,6 +215,11 @@ pub fn run(case: &Value, ctx: &Ctx) -> Outcome {
         }
         args.push("--precision".into());
         args.push(precision.to_string());
+    }
+    if proj.is_empty() && id % 6 == 0 {
+        // without projection the counts are printed as exact integers whatever --precision says
+        args.push("--precision".into());
+        args.push("4".into());
     }
     let via_stdin = id % 4 == 1;
     if !via_stdin {
